@@ -103,7 +103,10 @@ func (bo *BlockOperations) CreateProposalBlock(
 	//maxBytes := lastState.ConsensusParams.Block.MaxBytes
 	// Fetch a limited amount of valid evidence
 	maxNumEvidence, _ := types.MaxEvidencePerBlock(lastState.ConsensusParams.Evidence.MaxBytes)
-	evidence, _ := bo.evPool.PendingEvidence(maxNumEvidence)
+	evidence, _ := bo.evPool.PendingEvidence(lastState.ConsensusParams.Evidence.MaxBytes)
+	if int64(len(evidence)) > maxNumEvidence {
+		evidence = evidence[:maxNumEvidence]
+	}
 
 	// Set time.
 	var timestamp time.Time
